@@ -22,14 +22,15 @@ META = {
 }
 
 KINDS = {
-    'sim': ('raise:ValueError', 'raise:Multi', 'raise:SystemExit', 'raise:Base', 'kill', 'exit', 'exit0'),
-    'serial': ('raise:ValueError', 'raise:Multi', 'raise:SystemExit', 'raise:Base'),
-    'fork': ('raise:ValueError', 'raise:Multi', 'raise:SystemExit', 'raise:Base', 'kill', 'exit', 'exit0'),
-    'spawn': ('raise:ValueError', 'raise:Multi', 'raise:SystemExit', 'raise:Base', 'kill', 'exit', 'exit0'),
+    'sim': ('raise:ValueError', 'raise:Multi', 'raise:SystemExit', 'raise:Base', 'raise:Chained', 'raise:Context', 'kill', 'exit', 'exit0'),
+    'serial': ('raise:ValueError', 'raise:Multi', 'raise:SystemExit', 'raise:Base', 'raise:Chained', 'raise:Context'),
+    'fork': ('raise:ValueError', 'raise:Multi', 'raise:SystemExit', 'raise:Base', 'raise:Chained', 'raise:Context', 'kill', 'exit', 'exit0'),
+    'spawn': ('raise:ValueError', 'raise:Multi', 'raise:SystemExit', 'raise:Base', 'raise:Chained', 'raise:Context', 'kill', 'exit', 'exit0'),
 }
 CAUSES = {
     'raise:ValueError': {'ValueError'}, 'raise:Multi': {'MultiArgError', 'TaskDiedError'},
     'raise:SystemExit': {'SystemExit'}, 'raise:Base': {'PlannedBase'},
+    'raise:Chained': {'ChainedError'}, 'raise:Context': {'ChainedError'},
     'kill': {'TaskDiedError'}, 'exit': {'TaskDiedError'}, 'exit0': {'TaskDiedError'},
 }
 
@@ -119,7 +120,7 @@ def judge(rep, scn, out):
                 if cname in CAUSES[a]:
                     if cname == 'ValueError' and str(cause) != f'planned failure of {n}':
                         continue
-                    if cname == 'PlannedBase' and cause.args != (n,):
+                    if cname in ('PlannedBase', 'ChainedError') and cause.args != (n,):
                         continue
                     ok = True
             if not ok:
